@@ -243,3 +243,45 @@ pub fn entries(args: &[String]) {
     w.flush().unwrap();
     println!("{}", json!({"grammars": id, "cases": ncases, "entries": nentries, "dropped": dropped}));
 }
+
+/// `vh streams-emit [--cases FILE | --seed ..] --out FILE`: the token queue a successful parse of the real VM
+/// leaves behind (hook H1), for validation of its well-formedness (Trace_Streams, C04).
+pub fn streams(args: &[String]) {
+    silence_panics();
+    let out = arg(args, "--out").expect("--out");
+    let src = sources(args, 8);
+    let mut w = writer(&out);
+    let (mut id, mut ncases, mut ntoks, mut dropped) = (0u64, 0u64, 0u64, 0u64);
+    for (text, cs) in &src.grammars {
+        pest::set_call_limit(None);
+        let opt = match guarded(|| front_end(text)) {
+            Ok(Ok((_, o))) => o,
+            _ => continue,
+        };
+        pest::set_call_limit(NonZeroUsize::new(20000));
+        let vm = pest_vm::Vm::new(opt);
+        let mut recs = vec![];
+        for (start, inp) in cs {
+            let _ = pest::verif::take_last();
+            let r = guarded(|| vm.parse(start, inp).map(|_| ()));
+            let view = pest::verif::take_last();
+            let v = match (r, view) {
+                (Ok(Ok(())), Some(v)) if v.ok && !v.limit_reached && v.queue.len() <= 400 => v,
+                _ => {
+                    dropped += 1;
+                    continue;
+                }
+            };
+            ncases += 1;
+            ntoks += v.queue.len() as u64;
+            recs.push(json!({"start": start, "inp": cps(inp),
+                             "q": v.queue.iter().map(|t| json!({"k": t.0.to_string(), "p": t.1, "r": t.2})).collect::<Vec<_>>()}));
+        }
+        if !recs.is_empty() {
+            id += 1;
+            wl(&mut w, &json!({"id": id, "text": text, "cases": recs}));
+        }
+    }
+    w.flush().unwrap();
+    println!("{}", json!({"grammars": id, "cases": ncases, "tokens": ntoks, "dropped_failing_or_limited": dropped}));
+}
